@@ -9,16 +9,16 @@ namespace Pagexml.C11
 open Pagexml.C03 (splitOn intercalate)
 
 /-- `finditer` on a rendered string finds exactly the tags whose name is accepted -/
-theorem scan_renderLaid {cc : CharClass} (hl : Lawful cc) (acc : List Char → Bool) :
+theorem scan_renderLaid {cc : CharClass} (hl : Lawful cc) (gap : Bool) (acc : List Char → Bool) :
     ∀ (ts : List LTag) (tail : List Char), (∀ t ∈ ts, t.OK cc) → NoWord cc tail →
       (∀ t ∈ ts, acc t.name = false → '{' ∉ t.body) →
-      scan cc acc 0 false (renderLaid ts tail) =
+      scan cc gap acc 0 false (renderLaid ts tail) =
         (ts.filter (fun t => acc t.name)).map (fun t => (t.name, t.body)) := by
   intro ts
   induction ts with
   | nil =>
     intro tail _ htail _
-    have := scan_noWord cc acc htail false []
+    have := scan_noWord cc gap acc htail false []
     simp only [List.append_nil] at this
     simp only [renderLaid, List.filter_nil, List.map_nil, this]
     cases lastWord cc false tail <;> rfl
@@ -29,14 +29,15 @@ theorem scan_renderLaid {cc : CharClass} (hl : Lawful cc) (acc : List Char → B
     have e : renderLaid (t :: ts) tail =
         t.sep ++ (t.name ++ ' ' :: '{' :: (t.body ++ '}' :: renderLaid ts tail)) := by
       simp [renderLaid, LTag.render]
-    rw [e, scan_noWord cc acc ht.sep, lastWord_noWord cc ht.sep]
+    rw [e, scan_noWord cc gap acc ht.sep, lastWord_noWord cc ht.sep]
     by_cases ha : acc t.name = true
-    · rw [scan_tag cc acc ht.name_ne ht.name_word hl.space_not_word hl.rbrace_not_word hb1 hb2 ha]
+    · rw [scan_tag cc gap acc ht.name_ne ht.name_word hl.space_not_word hl.rbrace_not_word hl.space_is_space
+        hl.lbrace_not_space hb1 hb2 ha]
       rw [ih tail (fun x hx => hts x (by simp [hx])) htail (fun x hx => hlb x (by simp [hx]))]
       simp [ha]
     · have ha' : acc t.name = false := by simpa using ha
-      rw [scan_tag_rejected cc acc ht.name_word hl.space_not_word hl.rbrace_not_word hl.lbrace_not_word
-        (hlb t (by simp) ha') ha']
+      rw [scan_tag_rejected cc gap acc ht.name_word hl.space_not_word hl.rbrace_not_word hl.lbrace_not_word
+        hl.rbrace_not_space (hlb t (by simp) ha') ha']
       rw [ih tail (fun x hx => hts x (by simp [hx])) htail (fun x hx => hlb x (by simp [hx]))]
       simp [ha']
 
@@ -58,7 +59,7 @@ theorem parse_renderLaid {cc : CharClass} (hl : Lawful cc) (ts : List LTag) (tai
     (hts : ∀ t ∈ ts, t.OK cc) (htail : NoWord cc tail) :
     parseCustomAttributes cc (renderLaid ts tail) = .ok (ts.map entryOf) := by
   unfold parseCustomAttributes findAll
-  rw [scan_renderLaid hl _ ts tail hts htail (fun _ _ h => by simp at h)]
+  rw [scan_renderLaid hl _ _ ts tail hts htail (fun _ _ h => by simp at h)]
   have hf : ts.filter (fun _ => true) = ts := by simp
   rw [hf]
   exact parseMatches_laid hl ts hts
